@@ -13,6 +13,7 @@
   name that is not a cache hit, and of a directory with entries.
 -/
 import AferoVerif.Proofs.CacheCoherent
+import AferoVerif.Generated.Facts
 namespace AferoVerif.C11
 open AferoVerif AferoVerif.Cache AferoVerif.MemFs
 
@@ -59,5 +60,27 @@ theorem rename_reaches_base_and_cache (dur : Int) (c : Cow) (a b : Str)
       Relinked (keyOfStr a) (keyOfStr b) bf c.s.b (Cache.step dur c (.rename a b)).1.s.b ∧
       Relinked (keyOfStr a) (keyOfStr b) lf c.s.l (Cache.step dur c (.rename a b)).1.s.l :=
   rename_effect dur c a b hst hcb hcl hrb hrl hne
+
+end AferoVerif.C11
+
+/-! ### tie to the source: the order of the calls into the two layers, regenerated from cacheOnReadFs.go -/
+
+namespace AferoVerif.C11
+open AferoVerif
+
+/-- no call into the cache layer comes before a call into the base -/
+def baseFirstOrder : List (String × String) → Bool
+  | [] => true
+  | (l, _) :: rest => if l = "layer" then rest.all (fun c => c.1 = "layer") else baseFirstOrder rest
+
+/-- **in the current cacheOnReadFs.go every mutating method (and OpenFile, Create) calls into the base before it
+    calls into the cache layer, and each of them does call into both** — the order the model (`Cache.both`,
+    `bothNoCopy`, `mutators_reach_base_and_cache`) has; extracted from the source by harness/cmd/facts on every
+    run (`Open` is the one method that looks at the cache layer first: that is the cache) -/
+theorem cache_calls_base_first_in_source :
+    ((Generated.cacheOrder.filter fun r => r.1 ≠ "Open" ∧ r.1 ≠ "Name" ∧ r.1 ≠ "Stat").all fun r =>
+      baseFirstOrder r.2 && r.2.any (fun c => c.1 = "base") && r.2.any (fun c => c.1 = "layer")) = true ∧
+    (Generated.cacheOrder.map (·.1)) = ["Chmod", "Chown", "Chtimes", "Create", "Mkdir", "MkdirAll", "Name", "Open", "OpenFile",
+      "Remove", "RemoveAll", "Rename", "Stat"] := by decide
 
 end AferoVerif.C11
